@@ -113,7 +113,13 @@ func (a *ledgerAudit) audit(where string) {
 				nOpen++
 			}
 		}
-		for fp, n := range perFP {
+		var fps []string
+		for fp := range perFP {
+			fps = append(fps, fp)
+		}
+		sortStrings(fps)
+		for _, fp := range fps {
+			n := perFP[fp]
 			name := idx[fp]
 			limit := 1
 			if !strings.HasPrefix(name, "_SK_") && !p.Cfg.SharedIK {
